@@ -626,6 +626,11 @@ LOOKALIKES = [
     '{ "text" : "x" }', '{"text":"x"} ', '"x"', 'a//b/../c', 'C:\\x',
     'Stra\u00dfe', 'A\u030a', '\u212b', '\uff21', 'x\t', '%s %d {0}',
     '\\n', 'localhost.', 'EXAMPLE.com:25565', '&amp;', '\u00a7cred',
+    # names the protocol itself knows (plugin channels old and new, common
+    # identifiers): carried verbatim like any other text
+    'MC|Brand', 'REGISTER', 'UNREGISTER', 'BungeeCord', 'MC|BEdit',
+    'FML|HS', 'minecraft:brand', 'minecraft:register', 'bungeecord:main',
+    'minecraft:overworld', 'default', 'flat', 'vanilla', 'en_US', 'en_us',
 ]
 
 SPECIAL_CHARS = ['\ufeff', '\x00', '\ufffd', '\u2028', '\u2029', '\x85',
